@@ -85,9 +85,13 @@ def run(table, specs, contract, cls, root, max_paths=3):
         for k in ('clauses_true', 'clauses_false', 'not_evaluable'):
             m = re.search(k + r'=(\d+)', tally)
             out[k] = out.get(k, 0) + (int(m.group(1)) if m else 0)
+        if 'INCONCLUSIVE' in text:
+            out['inconclusive_neighbour_raised'] = out.get('inconclusive_neighbour_raised', 0) + 1
         if 'entry_legal=False' in tally:
             out['entry_not_legal_natively'] = out.get('entry_not_legal_natively', 0) + 1
-        if rc == 0:
+        if rc == 0 and 'INCONCLUSIVE' in text:
+            out['detail'].append({'path': path[-3:], 'native': 'inconclusive (exception raised inside another real object)'})
+        elif rc == 0:
             out['agreed'] += 1
             out['detail'].append({'path': path[-3:], 'native': tally})
         elif rc == 10:
